@@ -174,6 +174,16 @@ def heap_model_check(work, tier):
         if rc != 0 or s['errors'] or s['distinct'] == 0:
             raise ToolError('MCArcHeap failed: %s' % s['errors'])
         out.append(dict(model='ArcHeap', size=size, max_puts=puts, max_panics=panics, keys=keys, states=s['distinct'], transitions=s['generated'], wall_s=round(wall, 1)))
+    # WTinyLFUCache: window RawLRU in front of a SegmentedCache, entries cross the boundary by value; admission verdict nondeterministic
+    for (ws, ca, cb, puts, panics, keys) in ([(1, 1, 1, 3, 1, 3)] if tier == 'quick' else [(1, 1, 1, 4, 1, 3), (1, 2, 1, 4, 0, 3), (2, 1, 1, 4, 0, 3), (1, 1, 2, 4, 0, 3)]):
+        cfg = work.path('wtheap-%d-%d-%d-%d-%d.cfg' % (ws, ca, cb, puts, panics))
+        vlib.write_cfg(cfg, 'MCSpec', dict(Keys=set(range(1, keys + 1)), WS=ws, CA=ca, CB=cb, MaxPuts=puts, MaxPanics=panics),
+                       invariants=['Safe', 'WF', 'Reachable', 'Accounted', 'Refines'])
+        o, rc, wall = vlib.run_tlc('MCWTinyHeap', cfg, work.dir, 'wtheap-%d-%d-%d-%d-%d' % (ws, ca, cb, puts, panics), workers=8, xmx='14g', timeout=3600)
+        s = vlib.tlc_summary(o)
+        if rc != 0 or s['errors'] or s['distinct'] == 0:
+            raise ToolError('MCWTinyHeap failed: %s' % s['errors'])
+        out.append(dict(model='WTinyHeap', window=ws, probationary=ca, protected=cb, max_puts=puts, max_panics=panics, keys=keys, states=s['distinct'], transitions=s['generated'], wall_s=round(wall, 1)))
     return out
 
 
@@ -189,6 +199,9 @@ def validate_shard(args):
         elif job['kind'] == '2q':
             c = job['inst']['cfg']
             module, consts = 'TwoQHeapTrace', dict(Keys={1, 2, 3}, Size=c['size'], Q=c['q'], GS=c['g'], MaxPuts=24, MaxPanics=1)
+        elif job['kind'] == 'wtlfu':
+            c = job['inst']['cfg']
+            module, consts = 'WTinyHeapTrace', dict(Keys={1, 2, 3}, WS=c['w'], CA=c['a'], CB=c['b'], MaxPuts=24, MaxPanics=1)
         elif job['kind'] == 'slru':
             module, consts = 'SegHeapTrace', dict(Keys={1, 2, 3}, CA=job['inst']['cfg']['a'], CB=job['inst']['cfg']['b'], MaxPuts=24, MaxPanics=1)
         else:
@@ -198,7 +211,7 @@ def validate_shard(args):
             idx, rec = rej
             _, jump = vlib.read_record(shard, idx)
             d = describe(job, rec, jump, variant)
-            d['evaluated_as'] = '%s (pointer-level model %s cannot explain this event)' % (module, {'slru': 'SegHeap.tla', '2q': 'TwoQHeap.tla', 'arc': 'ArcHeap.tla'}.get(job['kind'], 'RawLRUHeap.tla'))
+            d['evaluated_as'] = '%s (pointer-level model %s cannot explain this event)' % (module, {'slru': 'SegHeap.tla', '2q': 'TwoQHeap.tla', 'arc': 'ArcHeap.tla', 'wtlfu': 'WTinyHeap.tla'}.get(job['kind'], 'RawLRUHeap.tla'))
             d['model_drift'] = True
             out.append(d)
         return out
@@ -292,7 +305,7 @@ def run_list_prop(prop, tier, seed, only_kinds=None, harness_variant='std', coll
             # pointer-level model: (A) TLC closes RawLRUHeap with panic points; (C) HeapTrace explains the RawLRU events
             heap_stats = heap_model_check(work, tier)
             if prop in ('C18', 'C04'):
-                tasks += [(j, s, 'HEAP', work, j['variant']) for j in jobs if j['kind'] in ('raw', 'slru', '2q', 'arc') and not j.get('random_only') for s in j['shards']]
+                tasks += [(j, s, 'HEAP', work, j['variant']) for j in jobs if j['kind'] in ('raw', 'slru', '2q', 'arc', 'wtlfu') and not j.get('random_only') for s in j['shards']]
         log('[%s] validating %d shards' % (prop, len(tasks)))
         res = vlib.pool_map(validate_shard, tasks, max(2, vlib.NCPU - 2))
         viols = crashes + [d for r in res for d in r]
